@@ -2,6 +2,7 @@ import GdcVerif.GoPrelude
 import GdcVerif.Model.C17Params
 import GdcVerif.Model.Rle
 import GdcVerif.Lemmas.RleEnc
+import GdcVerif.Lemmas.RleFrame
 import GdcVerif.Gen.JpegLs
 import GdcVerif.Gen.ValidateJpegBaseline
 import GdcVerif.Gen.ValidateJpegExtended
@@ -316,10 +317,46 @@ theorem encodeSegments_oob (i : Rle.Info) (src : Array Rle.Byte) :
     intro s body offs oob r h
     rw [Rle.encodeSegments] at h
     simp only [] at h
-    split at h
-    · cases h
-    · rename_i plane _
-      have := ih _ _ _ _ r h
-      rw [this, (Rle.encodeSegment_spec plane).2, Bool.or_false]
+    generalize (if (64 + body.length) % 2 = 1 then body ++ [0] else body) = body' at h
+    cases hrp : Rle.readPlane src (i.segStart s) i.segStride i.pixelCount with
+    | none => rw [hrp] at h; cases h
+    | some plane =>
+      rw [hrp] at h
+      simp only [] at h
+      by_cases hg : 64 + (body' ++ (Rle.encodeSegment plane).1).length > Rle.maxEncodedFrameLength
+      · rw [if_pos hg] at h; cases h
+      · rw [if_neg hg] at h
+        have := ih _ _ _ _ r h
+        rw [this, (Rle.encodeSegment_spec plane).2, Bool.or_false]
+
+/-- the size guard of encodeFrame, for ANY frame description and source: a returned segment list keeps the
+    stream within `maxEncodedFrameLength`, and one offset is recorded per segment -/
+theorem encodeSegments_fits (i : Rle.Info) (src : Array Rle.Byte) :
+    ∀ (n s : Nat) (body : List Rle.Byte) (offs : List Nat) (oob : Bool) (r : List Rle.Byte × List Nat × Bool),
+      Rle.encodeSegments i src n s body offs oob = .ok r → 64 + body.length ≤ Rle.maxEncodedFrameLength →
+      64 + r.1.length ≤ Rle.maxEncodedFrameLength ∧ r.2.1.length = offs.length + n := by
+  intro n
+  induction n with
+  | zero =>
+    intro s body offs oob r h hb
+    simp [Rle.encodeSegments] at h
+    cases h
+    exact ⟨hb, rfl⟩
+  | succ n ih =>
+    intro s body offs oob r h _
+    rw [Rle.encodeSegments] at h
+    simp only [] at h
+    generalize (if (64 + body.length) % 2 = 1 then body ++ [0] else body) = body' at h
+    cases hrp : Rle.readPlane src (i.segStart s) i.segStride i.pixelCount with
+    | none => rw [hrp] at h; cases h
+    | some plane =>
+      rw [hrp] at h
+      simp only [] at h
+      by_cases hg : 64 + (body' ++ (Rle.encodeSegment plane).1).length > Rle.maxEncodedFrameLength
+      · rw [if_pos hg] at h; cases h
+      · rw [if_neg hg] at h
+        have := ih _ _ _ _ r h (by omega)
+        refine ⟨this.1, ?_⟩
+        rw [this.2]; simp; omega
 
 end C17
